@@ -1,7 +1,87 @@
 /* C03/C14: path_is_relative against the documented meaning (reproc.h :343-345,
- * process.posix.c :39-41), bounded string length. The string lives in a heap
- * object of exactly strlen + 1 bytes, so that a read past the terminating NUL
- * is out of bounds. */
+ * process.posix.c :39-41).
+ *
+ * Two harnesses over the same real function:
+ *  - default: bounded string length, byte level, CBMC's own strlen/strchr. The
+ *    string lives in a heap object of exactly strlen + 1 bytes, so that a read
+ *    past the terminating NUL is out of bounds.
+ *  - VERIF_PATH_ANY: ANY string length up to 2^30, loop-free and therefore a
+ *    complete proof relative to the two libc contracts below. The string is
+ *    described by ghost values (its length, its first byte, the index of the
+ *    first '/' at or after index 1, if any); strlen and strchr are executable
+ *    contracts over that description that also assert that the pointer they are
+ *    handed lies inside the string (so `path + 1` on an empty string, or a scan
+ *    started past the NUL, is refuted for every length). */
+#ifdef VERIF_PATH_ANY
+#include "rename.h"
+
+static const char *gp_path;
+static size_t gp_len;      /* strlen(path) */
+static bool gp_has_slash;  /* some path[i] == '/' with 1 <= i < gp_len */
+static size_t gp_slash;    /* the first such i */
+static int gp_strchr_calls;
+
+static size_t verif_path_strlen(const char *s)
+{
+  V_ASSERT("C14/path_is_relative.strlen_of_the_path_itself", s == gp_path);
+  return gp_len;
+}
+
+/* ISO C 7.24.5.2 for c = '/', on the abstract string. */
+static char *verif_path_strchr(const char *s, int c)
+{
+  V_ASSERT("C14/path_is_relative.scan_starts_inside_the_string",
+           __CPROVER_same_object(s, gp_path) && (size_t) (s - gp_path) <= gp_len);
+  V_ASSERT("C03/path_is_relative.looks_for_a_directory_separator", c == '/');
+  if (gp_strchr_calls < 100) gp_strchr_calls++;
+  size_t from = (size_t) (s - gp_path);
+  if (from == 0 && gp_len > 0 && gp_path[0] == '/') return (char *) gp_path;
+  if (gp_has_slash && from <= gp_slash) return (char *) gp_path + gp_slash;
+  if (from <= 1) return NULL; /* no separator at or after index 1, and none at index 0 */
+  /* a scan started further in: the description does not say what lies there */
+  size_t at = nondet_ulong();
+  __CPROVER_assume(at >= from && at < gp_len);
+  return nondet_bool() ? (char *) gp_path + at : NULL;
+}
+
+#define strlen(s) verif_path_strlen(s)
+#define strchr(s, c) verif_path_strchr(s, c)
+#include "process.posix.c"
+#undef strlen
+#undef strchr
+#include "static_process.h"
+#include "common.h"
+
+void harness(void)
+{
+  ghost_init();
+  gp_strchr_calls = 0;
+  gp_len = nondet_ulong();
+  __CPROVER_assume(gp_len <= ((size_t) 1 << 30));
+  char *s = (malloc)(gp_len + 1);
+  __CPROVER_assume(s != NULL);
+  gp_path = s;
+  gp_has_slash = nondet_bool();
+  gp_slash = nondet_ulong();
+  __CPROVER_assume(!gp_has_slash || (gp_slash >= 1 && gp_slash < gp_len));
+  if (gp_len > 0) {
+    s[0] = (char) nondet_uchar();
+    __CPROVER_assume(s[0] != '\0');
+  }
+  if (gp_has_slash) s[gp_slash] = '/';
+  s[gp_len] = '\0';
+
+  /* not empty, not absolute, and names a directory component */
+  bool spec = gp_len > 0 && s[0] != '/' && gp_has_slash;
+  bool verif_rv = path_is_relative(s);
+  V_ASSERT("C03/path_is_relative.non_empty_not_absolute_with_directory_component", verif_rv == spec);
+  if (verif_rv) V_CANARY("path_any.relative_reachable"); else V_CANARY("path_any.not_relative_reachable");
+  if (gp_len == 0) V_CANARY("path_any.empty_string_reachable");
+  if (gp_len > 100000 && gp_has_slash && gp_slash > 50000) V_CANARY("path_any.long_path_reachable");
+  if (gp_len > 0 && s[0] == '/') V_CANARY("path_any.absolute_reachable");
+  (free)(s);
+}
+#else
 #include "process.posix.c"
 #include "static_process.h"
 #include "common.h"
@@ -38,3 +118,4 @@ void harness(void)
   if (len == 0) V_CANARY("path.empty_string_reachable");
   (free)(s);
 }
+#endif
